@@ -204,6 +204,7 @@ static void print_cfg(KSI_Config *cfg) {
 	PF("calfirst", KSI_Config_getCalendarFirstTime) PF("callast", KSI_Config_getCalendarLastTime)
 }
 
+static int extending;
 static void print_handle(KSI_AsyncHandle *h) {
 	int st = -1, err = 0; long ext = 0; const void *tag = NULL; KSI_uint64_t id = 0; size_t parent = 0;
 	KSI_AsyncHandle_getState(h, &st); KSI_AsyncHandle_getError(h, &err); KSI_AsyncHandle_getExtError(h, &ext);
@@ -212,7 +213,14 @@ static void print_handle(KSI_AsyncHandle *h) {
 	if (st == KSI_ASYNC_STATE_PUSH_CONFIG_RECEIVED && nsvc > 0) tag = NULL;
 	KSI_AsyncHandle_getParentId(h, &parent); (void)parent;
 	printf(" h=%ld state=%d err=0x%x ext=%ld id=%llu", (long)(size_t)tag - 1, st, err, ext, (unsigned long long)id);
-	if (st == KSI_ASYNC_STATE_RESPONSE_RECEIVED) {
+	if (st == KSI_ASYNC_STATE_RESPONSE_RECEIVED && extending) {
+		/* for the extending service the 'signature' of the trace is the calendar chain: sig=<rc of getting it>, sighash=<its input hash> */
+		KSI_ExtendResp *er = NULL; KSI_CalendarHashChain *cc = NULL; KSI_DataHash *in = NULL; int rc = KSI_AsyncHandle_getExtendResp(h, &er);
+		if (rc == KSI_OK) rc = KSI_ExtendResp_getCalendarHashChain(er, &cc);
+		if (rc == KSI_OK && cc == NULL) rc = -1;
+		printf(" sig=%d", rc);
+		if (rc == KSI_OK && KSI_CalendarHashChain_getInputHash(cc, &in) == KSI_OK && in) { const unsigned char *imp; size_t n; KSI_DataHash_getImprint(in, &imp, &n); printf(" sighash="); hx_print(imp, n); }
+	} else if (st == KSI_ASYNC_STATE_RESPONSE_RECEIVED) {
 		KSI_Signature *sig = NULL; KSI_DataHash *in = NULL; int rc = KSI_AsyncHandle_getSignature(h, &sig);
 		printf(" sig=%d", rc);
 		if (rc == KSI_OK && KSI_Signature_getDocumentHash(sig, &in) == KSI_OK) { const unsigned char *imp; size_t n; KSI_DataHash_getImprint(in, &imp, &n); printf(" sighash="); hx_print(imp, n); }
@@ -355,7 +363,8 @@ int main(void) {
 			int rc;
 			free_all(); reset_net();
 			KSI_CTX_new(&ctx);
-			rc = KSI_SigningAsyncService_new(ctx, &as);
+			extending = (n > 6 && !strcmp(tok[6], "x"));
+			rc = extending ? KSI_ExtendingAsyncService_new(ctx, &as) : KSI_SigningAsyncService_new(ctx, &as);
 			if (rc == KSI_OK) rc = KSI_AsyncService_setEndpoint(as, "ksi+tcp://h.example:1", cred_user, cred_key);
 			if (rc == KSI_OK) rc = KSI_AsyncService_setOption(as, KSI_ASYNC_OPT_REQUEST_CACHE_SIZE, (void *)(size_t)atol(tok[1]));
 			KSI_AsyncService_setOption(as, KSI_ASYNC_OPT_SND_TIMEOUT, (void *)(size_t)atol(tok[2]));
@@ -425,6 +434,18 @@ int main(void) {
 			  if (KSI_AsyncService_getOption(as, KSI_ASYNC_OPT_HA_SUBSERVICE_LIST, (void *)&subs) == KSI_OK && subs != NULL)
 				for (j = 0; j < KSI_AsyncServiceList_length(subs); j++) { KSI_AsyncService *x = NULL; KSI_AsyncServiceList_elementAt(subs, j, &x); svc_index(x); } }
 			printf("R hanew rc=%d subs=%d\n", rc, nsvc);
+		} else if (!strcmp(tok[0], "ADDX")) {
+			/* ADDX <tag> <aggregationTime> <publicationTime|-> : extension request on the extending async service */
+			long tag = atol(tok[1]); KSI_ExtendReq *rq = NULL; KSI_Integer *a = NULL, *pt = NULL; KSI_AsyncHandle *h = NULL; int rc; KSI_uint64_t id = 0;
+			rc = KSI_ExtendReq_new(ctx, &rq);
+			if (rc == KSI_OK) rc = KSI_Integer_new(ctx, strtoull(tok[2], NULL, 10), &a);
+			if (rc == KSI_OK) { rc = KSI_ExtendReq_setAggregationTime(rq, a); if (rc == KSI_OK) a = NULL; }
+			if (rc == KSI_OK && strcmp(tok[3], "-")) { rc = KSI_Integer_new(ctx, strtoull(tok[3], NULL, 10), &pt); if (rc == KSI_OK) { rc = KSI_ExtendReq_setPublicationTime(rq, pt); if (rc == KSI_OK) pt = NULL; } }
+			if (rc == KSI_OK) { rc = KSI_AsyncExtendHandle_new(ctx, rq, &h); if (rc == KSI_OK) rq = NULL; }
+			if (rc == KSI_OK) { KSI_AsyncHandle_setRequestCtx(h, (void *)(size_t)(tag + 1), NULL); rc = KSI_AsyncService_addRequest(as, h); }
+			if (rc == KSI_OK) { held[tag] = h; KSI_AsyncHandle_getRequestId(h, &id); } else KSI_AsyncHandle_free(h);
+			KSI_ExtendReq_free(rq); KSI_Integer_free(a); KSI_Integer_free(pt);
+			printf("R add tag=%ld rc=0x%x id=%llu\n", tag, rc, (unsigned long long)id);
 		} else if (!strcmp(tok[0], "ADD")) {
 			long tag = atol(tok[1]); size_t hl; unsigned char *hb = hx_dec(tok[2], &hl); KSI_DataHash *hsh = NULL; KSI_AsyncHandle *h = NULL; int rc;
 			KSI_uint64_t id = 0;
